@@ -43,8 +43,10 @@ type XVal struct {
 var valRe = regexp.MustCompile(`\(- (\d+)\)|(-?\d+)|\b(true|false)\b`)
 
 func (e *Exec) evalInt(t *Term) (int64, bool) {
-	e.ensureDeclsQuiet(t)
-	s := e.sol.Eval(t)
+	s := e.evalRaw(t)
+	if os.Getenv("GOVC_TRACE") != "" {
+		fmt.Fprintf(os.Stderr, "evalInt: %.300s\n", s)
+	}
 	// ((term value)) : take the last number
 	i := strings.LastIndex(s, " ")
 	if i < 0 {
@@ -64,9 +66,20 @@ func (e *Exec) evalInt(t *Term) (int64, bool) {
 	return n, true
 }
 
-func (e *Exec) evalBool(t *Term) (bool, bool) {
+// evalRaw: model value of t; a declaration issued after check-sat discards the
+// model, so an empty answer is retried after a fresh check-sat
+func (e *Exec) evalRaw(t *Term) string {
 	e.ensureDeclsQuiet(t)
 	s := e.sol.Eval(t)
+	if s == "" && !e.evalFrozen {
+		e.sol.checkRaw(3000)
+		s = e.sol.Eval(t)
+	}
+	return s
+}
+
+func (e *Exec) evalBool(t *Term) (bool, bool) {
+	s := e.evalRaw(t)
 	s = strings.TrimRight(s, ")")
 	if strings.HasSuffix(s, "true") {
 		return true, true
@@ -137,6 +150,7 @@ type extractor struct {
 	ctx   *SpecCtx // reads the entry heap
 	seen  map[int64]*XVal
 	nodes int
+	ptrs  []*Term // pointer-valued terms visited (for the refinement of the candidate model)
 }
 
 func goTypeString(t types.Type) string {
@@ -202,6 +216,9 @@ func (x *extractor) val(v Val, t types.Type, depth int) *XVal {
 			}
 			out := &XVal{Kind: "ptr", Ref: fmt.Sprint(r), Type: goTypeString(t), t: t}
 			x.seen[r] = out
+			if len(x.ptrs) < 40 {
+				x.ptrs = append(x.ptrs, vv)
+			}
 			if _, isS := under(u.Elem()).(*types.Struct); isS {
 				sv := x.ctx.loadAt(vv, u.Elem())
 				inner := x.val(sv, u.Elem(), depth+1)
@@ -300,6 +317,8 @@ func berEncode(p *XVal, depth int) []byte {
 // ---- Go literals ---------------------------------------------------------------------------
 
 type litGen struct {
+	direct    bool // build *ber.Packet values field by field (no wire-form pre-condition to respect)
+	usesBytes bool
 	imports map[string]bool
 	ownPkg  string
 	setup   []string
@@ -373,6 +392,10 @@ func (g *litGen) lit(x *XVal) string {
 		switch ts {
 		case "ber.Packet", "asn1-ber.Packet":
 			g.imports["github.com/go-asn1-ber/asn1-ber"] = true
+			if g.direct {
+				return g.pktLit(x, 0)
+			}
+			g.usesBytes = true
 			return fmt.Sprintf("govcPkt(%q)", hex.EncodeToString(berEncode(x, 0)))
 		case "bufio.Writer":
 			g.imports["bufio"] = true
@@ -471,18 +494,47 @@ func replayHook(e *Exec, st *State, o *Oblig) *Cex {
 		return nil
 	}
 	ctx := e.newSpecCtx(st, top.Pkg.Pkg, fr.entry).inOld()
-	x := &extractor{e: e, ctx: ctx, seen: map[int64]*XVal{}}
-	g := &litGen{imports: map[string]bool{"testing": true, "fmt": true}, ownPkg: top.Pkg.Pkg.Name()}
+	var x *extractor
+	var g *litGen
 	var args []string
-	inputs := map[string]*XVal{}
-	for _, p := range top.Params {
-		v, ok := fr.env[p]
-		if !ok {
-			return nil
+	var inputs map[string]*XVal
+	refined := 0
+	for round := 0; ; round++ {
+		// dry run first: it declares every symbol the walk needs (a declaration
+		// discards the solver's model); then one check-sat, and the walk proper reads
+		// all its values from that one model
+		e.evalFrozen = false
+		dry := &extractor{e: e, ctx: ctx, seen: map[int64]*XVal{}}
+		for _, p := range top.Params {
+			if v, ok := fr.env[p]; ok {
+				dry.val(v, p.Type(), 0)
+			}
 		}
-		xv := x.val(v, p.Type(), 0)
-		inputs[p.Name()] = xv
-		args = append(args, g.lit(xv))
+		e.sol.checkRaw(3000)
+		e.evalFrozen = true
+		x = &extractor{e: e, ctx: ctx, seen: map[int64]*XVal{}}
+		g = &litGen{imports: map[string]bool{"testing": true, "fmt": true}, ownPkg: top.Pkg.Pkg.Name(), direct: !requiresWire(e.topC)}
+		args = nil
+		inputs = map[string]*XVal{}
+		for _, p := range top.Params {
+			v, ok := fr.env[p]
+			if !ok {
+				return nil
+			}
+			xv := x.val(v, p.Type(), 0)
+			inputs[p.Name()] = xv
+			args = append(args, g.lit(xv))
+		}
+		if round >= 3 || len(top.FreeVars) > 0 {
+			break
+		}
+		// refine the candidate: the quantified assumptions (wire form, ...) that the
+		// model may ignore are unfolded at the objects the candidate actually uses
+		n, sat := e.refineCandidate(x.ptrs)
+		if n == 0 || !sat {
+			break
+		}
+		refined += n
 	}
 	if len(top.FreeVars) > 0 {
 		js, _ := json.Marshal(inputs)
@@ -518,7 +570,7 @@ func replayHook(e *Exec, st *State, o *Oblig) *Cex {
 		}
 	}
 	sort.Strings(imps)
-	hasPkt := g.imports["github.com/go-asn1-ber/asn1-ber"]
+	hasPkt := g.usesBytes
 	if hasPkt {
 		found := false
 		for _, i := range imps {
@@ -556,7 +608,7 @@ func replayHook(e *Exec, st *State, o *Oblig) *Cex {
 		src += "\nfunc govcPkt(h string) *ber.Packet {\n\tb, _ := hex.DecodeString(h)\n\tp, err := ber.DecodePacketErr(b)\n\tif err != nil {\n\t\tfmt.Printf(\"GOVC-REPLAY: DECODE-ERROR %v\\n\", err)\n\t\tpanic(\"govc: the candidate packet is not accepted by the BER reader\")\n\t}\n\treturn p\n}\n"
 	}
 	js, _ := json.Marshal(inputs)
-	cex := &Cex{Text: "candidate inputs (solver model, entry state): " + string(js) + "\n\n--- replay test ---\n" + src}
+	cex := &Cex{Text: fmt.Sprintf("candidate inputs (solver model, entry state; %d unfolded instances of quantified assumptions added while refining it): ", refined) + string(js) + "\n\n--- replay test ---\n" + src}
 	out, ok := runReplay(top.Pkg.Pkg.Path(), src)
 	cex.Text += "\n--- replay output ---\n" + out
 	wantPanic := strings.HasPrefix(o.Class, "SAFE") || o.Class == "EXC"
@@ -616,4 +668,141 @@ func max(a, b int) int {
 		return a
 	}
 	return b
+}
+
+// refineCandidate asserts, in the live scope of the failed obligation, the
+// unfolding of every unary predicate at every pointer the candidate visits, with
+// the index quantifiers of the unfolding instantiated at 0..5, and re-checks.
+// Returns the number of facts added and whether the scope is still satisfiable
+// (sat or unknown).
+func (e *Exec) refineCandidate(ptrs []*Term) (int, bool) {
+	s := e.sol
+	n := 0
+	done := map[string]bool{}
+	var syms []string
+	for sym := range predDefs {
+		syms = append(syms, sym)
+	}
+	sort.Strings(syms)
+	idx := []*Term{IntLit(0), IntLit(1), IntLit(2), IntLit(3), IntLit(4), IntLit(5)}
+	for _, t := range ptrs {
+		for _, sym := range syms {
+			d := predDefs[sym]
+			if os.Getenv("GOVC_TRACE") != "" {
+				fmt.Fprintf(os.Stderr, "refineCandidate: sym %s arity %d declared %v\n", sym, len(d.qs), s.declared(sym))
+			}
+			if len(d.qs) != 1 || d.qs[0].S != SInt || !s.declared(sym) {
+				continue
+			}
+			key := sym + "|" + t.String()
+			if done[key] || e.refined[key] {
+				continue
+			}
+			done[key] = true
+			if e.refined == nil {
+				e.refined = map[string]bool{}
+			}
+			e.refined[key] = true
+			body := Subst(d.body, map[*Term]*Term{d.qs[0]: t})
+			f := Implies(App(sym, SBool, t), instHyp(body, idx))
+			e.ensureDeclsQuiet(f)
+			s.raw("(assert " + f.String() + ")")
+			n++
+		}
+	}
+	if os.Getenv("GOVC_TRACE") != "" {
+		for li, m := range s.declLevel {
+			for k := range m {
+				if strings.Contains(k, "pred") {
+					fmt.Fprintf(os.Stderr, "refineCandidate: level %d declares %s\n", li, k)
+				}
+			}
+		}
+		fmt.Fprintf(os.Stderr, "refineCandidate: %d pointers, %d predicates, %d facts\n", len(ptrs), len(syms), n)
+	}
+	if n == 0 {
+		return 0, true
+	}
+	r, _ := s.checkRaw(3000)
+	return n, r == "sat" || r == "unknown"
+}
+
+// instHyp: an assumed formula with its positive universal quantifiers (one
+// integer binder) conjoined with their instances at the given terms
+func instHyp(t *Term, at []*Term) *Term {
+	if t.S != SBool || len(t.Args) == 0 {
+		return t
+	}
+	switch t.Op {
+	case "and":
+		out := make([]*Term, len(t.Args))
+		for i, a := range t.Args {
+			out[i] = instHyp(a, at)
+		}
+		return And(out...)
+	case "=>":
+		return Implies(t.Args[0], instHyp(t.Args[1], at))
+	case "forall":
+		if len(t.Bind) != 1 || t.Bind[0].S != SInt {
+			return t
+		}
+		parts := []*Term{t}
+		for _, k := range at {
+			parts = append(parts, Subst(t.Args[0], map[*Term]*Term{t.Bind[0]: k}))
+		}
+		return And(parts...)
+	}
+	return t
+}
+
+// pktLit: the candidate packet as a composite literal (used when the function
+// under test accepts arbitrary trees; Data and children are never nil, as the
+// type invariants of the contract file demand)
+func (g *litGen) pktLit(x *XVal, depth int) string {
+	if x == nil || x.Kind != "ptr" || depth > 6 {
+		g.imports["bytes"] = true
+		return "&ber.Packet{Data: &bytes.Buffer{}}"
+	}
+	g.imports["bytes"] = true
+	f := x.Fields
+	var cls, typ, tag int64
+	if id := f["Identifier"]; id != nil {
+		cls, typ, tag = xint(id.Fields["ClassType"]), xint(id.Fields["TagType"]), xint(id.Fields["Tag"])
+	}
+	val := "nil"
+	if v := f["Value"]; v != nil && v.Kind == "iface" && v.Dyn != nil {
+		switch v.Dyn.Kind {
+		case "string":
+			b, _ := hex.DecodeString(v.Dyn.Bytes)
+			val = strconv.Quote(string(b))
+		case "int":
+			val = v.Dyn.Type + "(" + v.Dyn.Int + ")"
+		case "bool":
+			val = strconv.FormatBool(v.Dyn.Bool)
+		}
+	}
+	data := "&bytes.Buffer{}"
+	if d := f["Data"]; d != nil && d.Dyn != nil {
+		b, _ := hex.DecodeString(d.Dyn.Bytes)
+		data = "bytes.NewBufferString(" + strconv.Quote(string(b)) + ")"
+	}
+	var kids []string
+	if ch := f["Children"]; ch != nil {
+		for _, k := range ch.Elems {
+			kids = append(kids, g.pktLit(k, depth+1))
+		}
+	}
+	return fmt.Sprintf("&ber.Packet{Identifier: ber.Identifier{ClassType: ber.Class(%d), TagType: ber.Type(%d), Tag: ber.Tag(%d)}, Value: %s, Data: %s, Children: []*ber.Packet{%s}}", cls, typ, tag, val, data, strings.Join(kids, ", "))
+}
+
+func requiresWire(c *Contract) bool {
+	if c == nil {
+		return false
+	}
+	for _, r := range c.Requires {
+		if strings.Contains(r.Text, "wire(") || strings.Contains(r.Text, "packetOK(") || strings.Contains(r.Text, "reqPktOK(") {
+			return true
+		}
+	}
+	return false
 }
